@@ -1,5 +1,5 @@
 (* C13 — Parsing partitions the docstring: each line is text, source or want, once. *)
-From XD Require Import Model.Base Model.Parser Spec.Partition Spec.Labels Proofs.ParserProofs Proofs.ChunkProofs Proofs.GroupLocal Proofs.LabelProofs.
+From XD Require Import Model.Base Model.Parser Spec.Partition Spec.Labels Proofs.ParserProofs Proofs.ChunkProofs Proofs.ReplProofs Proofs.GroupLocal Proofs.LabelProofs.
 
 (* the labeller emits exactly one labelled line per docstring line, in order, each
    identical to the input line up to the display prefix inserted by the triple-quote
@@ -147,3 +147,20 @@ Theorem C13_text_run_one_chunk : forall (t : label * str) T, AllClass KText (t :
   group_lines (t :: T) = Ok [TextChunk (map snd (t :: T))].
 Proof. exact group_lines_text. Qed.
 Print Assumptions C13_text_run_one_chunk.
+
+(* the parser's other mode, DoctestParser(simulate_repl=True) (every statement a part of its own): the parts of a chunk tile
+   its lines just the same (boundaries: 0 and the statement starts after the first), and the docstring is partitioned *)
+Theorem C13_repl_chunk_tiles : forall o raw_src raw_want lineno ps,
+  package_chunk_repl o raw_src raw_want lineno = Ok ps ->
+  PartsTile lineno (dedent_chunk raw_src) (dedent_want raw_src raw_want) ps.
+Proof. exact package_chunk_repl_tiles. Qed.
+Print Assumptions C13_repl_chunk_tiles.
+Theorem C13_repl_partition : forall o s items,
+  parse_repl o s = Parsed items ->
+  exists ll gs,
+    length ll = length (splitlines (normalize_docstring s)) /\
+    Forall2 SameLineUpToHack ll (splitlines (normalize_docstring s)) /\
+    flatten_chunks gs = map snd ll /\
+    Tiled 0 gs items.
+Proof. exact parse_repl_partition. Qed.
+Print Assumptions C13_repl_partition.
